@@ -49,7 +49,13 @@ func (r *Result) OK() bool {
 }
 
 func runSolver(cfg SolverCfg, file string, timeoutS int) (status, output string, ms int64) {
-	ctx, cancel := context.WithTimeout(context.Background(), time.Duration(timeoutS+2)*time.Second)
+	return runSolverCtx(context.Background(), cfg, file, timeoutS)
+}
+
+// runSolverCtx: as runSolver, under a parent context; a run ended by the parent (another
+// solver of the race answered first) reports "cancelled".
+func runSolverCtx(parent context.Context, cfg SolverCfg, file string, timeoutS int) (status, output string, ms int64) {
+	ctx, cancel := context.WithTimeout(parent, time.Duration(timeoutS+2)*time.Second)
 	defer cancel()
 	start := time.Now()
 	cmd := exec.CommandContext(ctx, cfg.Cmd[0], append(cfg.Cmd[1:], file)...)
@@ -71,11 +77,22 @@ func runSolver(cfg SolverCfg, file string, timeoutS int) (status, output string,
 	case "timeout":
 		return "timeout", output, ms
 	}
+	if parent.Err() != nil {
+		return "cancelled", output, ms
+	}
 	if ctx.Err() != nil || strings.Contains(output, "timeout") || strings.Contains(output, "interrupted") {
 		return "timeout", output, ms
 	}
 	return "error", output, ms
 }
+
+// hedgeAfter: the E-matching-only configuration decides almost every obligation in well under a
+// second; when it has not answered after this long the remaining configurations are started
+// beside it (a race, first conclusive answer wins) instead of after its timeout. Obligations that
+// need MBQI or cvc5 then cost a few seconds instead of a full E-matching timeout first, and every
+// configuration gets the whole per-obligation budget - which keeps the unchanged tree far from
+// the timeout when the machine is loaded.
+const hedgeAfter = 2 * time.Second
 
 // Discharge runs all obligations, up to par at a time.
 func Discharge(items []struct {
@@ -109,39 +126,64 @@ func Discharge(items []struct {
 			if !thorough {
 				cfgs = cfgs[:3] // quick: z3 5.1 E-matching, z3 5.1 default, cvc5
 			}
+			type solverOut struct {
+				ci      int
+				st, out string
+				ms      int64
+			}
+			var run []int
 			for ci, cfg := range cfgs {
-				to := timeoutS
-				if !thorough {
-					switch ci {
-					case 0:
-						to = timeoutS
-						cfg.Cmd[2] = "-T:" + fmt.Sprint(to)
-					case 1:
-						to = timeoutS
-						cfg.Cmd[2] = "-T:" + fmt.Sprint(to)
-					case 2:
-						to = max(timeoutS/2, 5)
-						cfg.Cmd[3] = "--tlimit=" + fmt.Sprint(to*1000)
-					}
-				}
 				if cfg.Name == "cvc5-1.0.3" && strings.Contains(text, "(lambda ") {
 					continue
 				}
-				st, out, ms := runSolver(cfg, file, to)
-				res.Tried = append(res.Tried, fmt.Sprintf("%s=%s(%dms)", cfg.Name, st, ms))
-				res.Ms += ms
-				if st == "unsat" || st == "sat" {
-					res.Status, res.Output, res.Solver = st, out, cfg.Name
-					if st == "sat" && strings.Contains(text, "forall") && ci == 0 {
-						// E-matching-only "sat" is only a candidate model: ask a complete configuration
+				run = append(run, ci)
+			}
+			ctx, cancel := context.WithCancel(context.Background())
+			ch := make(chan solverOut, len(run))
+			launched, pending := 0, 0
+			launch := func() {
+				ci := run[launched]
+				launched++
+				pending++
+				go func() {
+					st, out, ms := runSolverCtx(ctx, cfgs[ci], file, timeoutS)
+					ch <- solverOut{ci, st, out, ms}
+				}()
+			}
+			launch()
+			hedge := time.After(hedgeAfter)
+			for pending > 0 {
+				select {
+				case <-hedge:
+					for launched < len(run) {
+						launch()
+					}
+				case r := <-ch:
+					pending--
+					if r.st == "cancelled" {
 						continue
 					}
-					break
-				}
-				if res.Status == "" || res.Status == "error" {
-					res.Status, res.Output, res.Solver = st, out, cfg.Name
+					res.Tried = append(res.Tried, fmt.Sprintf("%s=%s(%dms)", cfgs[r.ci].Name, r.st, r.ms))
+					res.Ms += r.ms
+					// E-matching-only "sat" under quantifiers is only a candidate model: not conclusive
+					conclusive := r.st == "unsat" || (r.st == "sat" && !(r.ci == 0 && strings.Contains(text, "forall")))
+					if conclusive {
+						res.Status, res.Output, res.Solver = r.st, r.out, cfgs[r.ci].Name
+						cancel()
+						for launched < len(run) {
+							launched++ // nothing more to start
+						}
+						continue
+					}
+					if res.Status == "" || res.Status == "error" || (r.st == "sat" && res.Status != "unsat") {
+						res.Status, res.Output, res.Solver = r.st, r.out, cfgs[r.ci].Name
+					}
+					for launched < len(run) {
+						launch()
+					}
 				}
 			}
+			cancel()
 			results[i] = res
 		}(i)
 	}
